@@ -177,7 +177,7 @@ func C15() *engine.Check {
 		return &engine.Sub{
 			Name:   name,
 			Repeat: true,
-			Rule:   "every ordered pair of valid commands over " + alphaDesc + " up to the length bound; Covers compared with the reference segment-prefix relation; antisymmetry, reflexivity, top; non-trivial = pairs sharing a textual prefix",
+			Rule:   "every ordered pair of valid commands over " + alphaDesc + " up to the length bound; Covers compared with the reference segment-prefix relation - also when one command is a slice of the other's text (shared storage) -; antisymmetry, reflexivity, top; non-trivial = pairs sharing a textual prefix",
 			Bound:  func(tr string) string { return fmt.Sprintf("both commands length<=%d symbols", tierN(tr, q, t)) },
 			Gen: func(tier string, emit func(any) bool) {
 				cmds := cmdsOf(tierN(tier, q, t))
@@ -212,6 +212,17 @@ func C15() *engine.Check {
 							cls = "covers/too-narrow"
 						}
 						ctx.Failf(rc, cls, "Covers(%q,%q)=%v, segment-prefix order says %v", cs.X, ys1, got, want)
+					}
+					if len(ys1) >= len(cs.X) && ys1[:len(cs.X)] == cs.X {
+						// the same pair with x being a sub-string OF y (one allocation, as after strings.Cut / TrimSuffix / y[:k])
+						shared := command.Command(y[:len(cs.X)])
+						ctx.Eval(2)
+						if g := shared.Covers(y); g != want {
+							ctx.Failf(rc, "covers/depends-on-shared-storage", "Covers(%q,%q)=%v when the first command is a slice of the second one's text, segment-prefix order says %v", cs.X, ys1, g, want)
+						}
+						if g := y.Covers(shared); g != refmodel.CmdCovers(ys1, cs.X) {
+							ctx.Failf(rc, "covers/depends-on-shared-storage", "Covers(%q,%q)=%v when the second command is a slice of the first one's text, segment-prefix order says %v", ys1, cs.X, g, !g)
+						}
 					}
 					if got {
 						ctx.Outcome("covers")
